@@ -21,6 +21,7 @@ func All() map[string]sim.Property {
 		"C04": C04{},
 		"C06": C06{},
 		"C07": C07{},
+		"C08": C08{},
 		"C12": C12{},
 	}
 }
